@@ -28,6 +28,11 @@ def sym_class_index(name, n, W, K, assignment=None):
     t = symnp.from_real(assignment); return t, []
 def ind(data, t, w, c): return z3.RealVal(1) if int(data.concrete[t, w]) == c else z3.RealVal(0)
 
+def _force(*tensors):
+    """evaluate every entry (concrete extents): storages are lazy, and the precision taint of a write is recorded when the entry is evaluated"""
+    for t in tensors:
+        for idx in itertools.product(*[range(d) for d in t.shape]): t.at(*idx)
+
 def partitioned_kernel(u, which, n, S, W, K, tdtype, precision):
     out = []
     for asg in class_index_assignments(n, W, K): out += _partitioned_kernel(u, which, n, S, W, K, tdtype, precision, asg)
@@ -42,7 +47,7 @@ def _partitioned_kernel(u, which, n, S, W, K, tdtype, precision, asg):
         X = sym_traces('X', n, S, tdtype); D, cons = sym_class_index('D', n, W, K, asg)
         sm = moment_tensor('SUM', (S, W, K), precision); sq = moment_tensor('SQ', (S, W, K), precision); cn = moment_tensor('CNT', (W, K), precision)
         old = (sm.snapshot(), sq.snapshot(), cn.snapshot())
-        fnc(X, D, sm, sq, cn, symnp.dtype(precision))
+        fnc(X, D, sm, sq, cn, symnp.dtype(precision)); _force(sm, sq, cn)
         return X, D, sm, sq, cn, old, list(core.NARROW_FLOWS)
     for p, outc, exc in core.explore(body, max_paths=3000):
         if exc is not None: out.append((p.pc, [], [], exc)); continue
@@ -73,7 +78,7 @@ def _template_kernel(u, which, n, S, K, tdtype, precision, asg):
         X = sym_traces('X', n, S, tdtype); D, cons = sym_class_index('D', n, 1, K, asg)
         exi = moment_tensor('EXI', (K, S), precision); exxi = moment_tensor('EXXI', (K, S, S), precision); cn = moment_tensor('CNT', (K,), precision)
         old = (exi.snapshot(), exxi.snapshot(), cn.snapshot())
-        fnc(X, D, exi, exxi, cn, symnp.dtype(precision).type)
+        fnc(X, D, exi, exxi, cn, symnp.dtype(precision).type); _force(exi, exxi, cn)
         return X, D, exi, exxi, cn, old, list(core.NARROW_FLOWS)
     for p, outc, exc in core.explore(body, max_paths=3000):
         if exc is not None: out.append((p.pc, [], [], exc)); continue
@@ -125,7 +130,7 @@ def ttest_kernel(u, n, S, tdtype, precision):
         core.NARROW_FLOWS.clear()
         X = sym_traces('X', n, S, tdtype)
         sm = moment_tensor('TS', (S,), precision); sq = moment_tensor('TSQ', (S,), precision); old = (sm.snapshot(), sq.snapshot())
-        fnc(X, sm, sq, symnp.dtype(precision))
+        fnc(X, sm, sq, symnp.dtype(precision)); _force(sm, sq)
         return X, sm, sq, old, list(core.NARROW_FLOWS)
     for p, outc, exc in core.explore(body):
         if exc is not None: out.append((p.pc, [], [], exc)); continue
